@@ -242,3 +242,551 @@ Proof. vm_compute. auto. Qed.
 
 Example pow_ge_example : pow_ge 5 3 = Done 9 /\ pow_ge 4 2 = Done 4 /\ howmany_of 8 2 = Done 3.
 Proof. vm_compute. auto. Qed.
+
+(** * Third wave: the lattices I_p and U_p of the Round 2 step, and that the step cannot panic
+    [In_rowspanZ m v A]: v is an integer combination of the rows of A ([lincomb m c A], MatZ.v);
+    coordinates are with respect to the basis of the input order.  [AlgNormMx.tmul t n a b] is the value of
+    [MultTable::mul] / [mul_mod_p] before the final reduction: the vector of the
+    sum_{i,j} a_i b_j t[i][j][k] ([Round2W3Mul.mul_mod_p_closed]: on an n x n x n table and p <> 0,
+    [mul_mod_p a b t p = Done (map (fun x => Z.rem x p) (tmul t n a b))]).
+    [Round2W3Up.pI p i_p] = the rows of [i_p] multiplied by p (generators of p I_p). *)
+From RNT.Model Require Hnf MultTable.
+From RNT.Refine Require Import MatZ HnfSpec Round2W3Ip Round2W3Up Round2W3Step Round2W3Total.
+From RNT.Refine Require MultTableOps AlgNormMx Round2W3Mul Round2W3Det.
+From Coq Require Import Lia.
+
+(** [P] mul_mod_p_closed: the closed form of the model's [mul_mod_p] *)
+Theorem mul_mod_p_closed : forall n t a b p,
+  MultTableOps.cube n t = true -> length a = n -> length b = n -> p <> 0 ->
+  mul_mod_p a b t p = Done (map (fun x => Z.rem x p) (AlgNormMx.tmul t n a b)).
+Proof. exact Round2W3Mul.mul_mod_p_closed. Qed.
+
+(** [P] kernel_hnf_trunc_spec ([HNF::new(&HNF::kernel(&m))] with rows truncated to [w], round2.rs:67-71 and
+    91-94): the rows returned generate the projection on the first [w] coordinates of the integer left
+    kernel of [m] (from C03 [kernel_basis]: the kernel rows are a saturated basis; C02 [hnf_lattice]) *)
+Theorem kernel_hnf_trunc_spec : forall M n m w R,
+  shape n m M -> (1 <= n)%nat -> (1 <= m)%nat -> (w <= n)%nat ->
+  kernel_hnf_trunc M w = Done R ->
+  wf w R /\
+  forall x, In_rowspanZ w x R <->
+            exists v, length v = n /\ lincomb m v M = vzero m /\ x = firstn w v.
+Proof. exact Round2W3Ip.kernel_hnf_trunc_spec. Qed.
+
+(** [P] compute_i_p_spec: I_p = { x in Z^deg : sum_i x_i Phi_i = 0 (mod p) }, where row i of [Phi] is
+    the first [deg] coordinates of e_i ^ pow computed by the model's [pow_mod_p] with the table mod p
+    (both inclusions; in particular every row of I_p is annihilated mod p, and p Z^deg is inside) *)
+Theorem compute_i_p_spec : forall deg p pow tbl i_p,
+  (1 <= deg)%nat -> compute_i_p deg p pow tbl = Done i_p ->
+  exists Phi,
+    shape deg deg Phi /\
+    (forall i, (i < deg)%nat -> exists r, pow_mod_p (unit_vec deg i) pow tbl p = Done r /\
+                                          (deg <= length r)%nat /\ row Phi i = firstn deg r) /\
+    wf deg i_p /\
+    forall x, In_rowspanZ deg x i_p <->
+              length x = deg /\ forall k, (k < deg)%nat -> (p | nth k (lincomb deg x Phi) 0).
+Proof. exact Round2W3Ip.compute_i_p_spec. Qed.
+
+Theorem i_p_contains_p : forall deg p pow tbl i_p y,
+  (1 <= deg)%nat -> compute_i_p deg p pow tbl = Done i_p -> length y = deg ->
+  In_rowspanZ deg (vscale p y) i_p.
+Proof. exact Round2W3Ip.i_p_contains_p. Qed.
+
+(** [C] compute_i_p_radical_partial: I_p = { x : x^pow = 0 (mod p) } with [x^pow] the model's [pow_mod_p],
+    PROVIDED the power map is additive mod p on the order ([pow_linear]: pow_mod_p x = sum_i x_i Phi_i mod p
+    for every x; true when the table is that of a commutative ring and p is prime, pow being a power of p --
+    the "freshman's dream", which is NOT proved here).
+    Full statement: the same without [pow_linear], for tables of orders and prime p. *)
+Theorem compute_i_p_radical_partial : forall deg p pow tbl i_p,
+  (1 <= deg)%nat -> compute_i_p deg p pow tbl = Done i_p ->
+  exists Phi,
+    shape deg deg Phi /\
+    (forall i, (i < deg)%nat -> exists r, pow_mod_p (unit_vec deg i) pow tbl p = Done r /\
+                                          (deg <= length r)%nat /\ row Phi i = firstn deg r) /\
+    (pow_linear deg p pow tbl Phi ->
+     forall x, In_rowspanZ deg x i_p <->
+               length x = deg /\ exists r, pow_mod_p x pow tbl p = Done r /\
+                                           forall k, (k < deg)%nat -> (p | nth k r 0)).
+Proof. exact Round2W3Ip.compute_i_p_radical. Qed.
+
+(** [P] up_step_spec: one iteration of the U_p loop (round2.rs:76-106) returns a normal form of the
+    sub-lattice of the current U_p of the elements u with i_p[i] * u in p I_p (product by the table mod
+    p^2; since p Z^deg is inside I_p the reduction mod p^2 of the products is immaterial) *)
+Theorem up_step_spec : forall deg p tbl2 i_p i u_p u',
+  MultTableOps.cube deg tbl2 = true -> (1 <= deg)%nat -> p <> 0 -> wf deg i_p -> wf deg u_p ->
+  (i < length i_p)%nat ->
+  (forall y, length y = deg -> In_rowspanZ deg (vscale p y) i_p) ->
+  up_step deg p (p * p) tbl2 i_p i u_p = Done u' ->
+  hnf_rows deg 0 u' /\
+  forall u, In_rowspanZ deg u u' <->
+            In_rowspanZ deg u u_p /\ In_rowspanZ deg (AlgNormMx.tmul tbl2 deg (row i_p i) u) (pI p i_p).
+Proof. exact Round2W3Up.up_step_spec. Qed.
+
+(** [P] one_step_lattices: in a returning call of the entry point [one_step]:
+    I_p as in [compute_i_p_spec], and U_p = { u in I_p : x * u in p I_p for every x in I_p } (the p-fold of
+    the multiplier ring of I_p, products by the table mod p^2); [h] generates U_p + p Z^deg and the new
+    basis is (h / p) O ([one_step_contains]). *)
+Theorem one_step_lattices : forall f o p o' hh deg,
+  length f = S deg -> (1 <= deg)%nat -> p <> 0 -> one_step f o p = Done (o', hh) ->
+  exists pow tbl tbl2 i_p u_p h Phi,
+    pow_ge (pdeg f) p = Done pow /\ mult_tables f o deg p (p * p) = Done (tbl, tbl2) /\
+    compute_i_p deg p pow tbl = Done i_p /\
+    Hnf.for_loop (Hnf.range 0 (length i_p)) (up_step deg p (p * p) tbl2 i_p) i_p = Done u_p /\
+    Hnf.hnf_new (u_p ++ p_rows deg p) = Done h /\
+    shape deg deg Phi /\
+    (forall i, (i < deg)%nat -> exists r, pow_mod_p (unit_vec deg i) pow tbl p = Done r /\
+                                          (deg <= length r)%nat /\ row Phi i = firstn deg r) /\
+    wf deg i_p /\
+    (forall x, In_rowspanZ deg x i_p <->
+               length x = deg /\ forall k, (k < deg)%nat -> (p | nth k (lincomb deg x Phi) 0)) /\
+    (forall y, length y = deg -> In_rowspanZ deg (vscale p y) i_p) /\
+    wf deg u_p /\
+    (forall u, In_rowspanZ deg u u_p <->
+               In_rowspanZ deg u i_p /\
+               forall x, In_rowspanZ deg x i_p -> In_rowspanZ deg (AlgNormMx.tmul tbl2 deg x u) (pI p i_p)) /\
+    (forall v, In_rowspanZ deg v h <-> In_rowspanZ deg v (u_p ++ p_rows deg p)).
+Proof. exact Round2W3Total.one_step_lattices. Qed.
+
+(** [P] one_step_no_panic: on a stored basis ([lower_from deg 0 o]: what [Order::from_basis] produces) and
+    for a prime p, every panic of [one_step] is a panic of the construction of the two tables
+    (round2.rs:26-45: [expect("O is not linearly independent")] or [assert!(inv[k].is_integer())], i.e. the
+    input lattice is not closed under multiplication), and the step never runs out of fuel.  Unreachable:
+    [assert!(u_p.len() <= deg)], [assert_eq!(u_p.dim(), deg)] (U_p + p Z^deg has full rank), the panics of
+    [Order::from_basis] (the new basis (h/p) O is non-singular), the [panic!] of [index] (the old basis is an
+    integer combination S of the new one) and every [assert_eq!(&index % p, 0)] (det S divides p^deg). *)
+Theorem one_step_no_panic : forall f o p deg,
+  length f = S deg -> (1 <= deg)%nat -> prime p -> lower_from deg 0 o ->
+  forall r, one_step f o p = r ->
+  match r with
+  | Done _ => True
+  | Panic t => mult_tables f o deg p (p * p) = Panic t
+  | OutOfFuel => mult_tables f o deg p (p * p) = OutOfFuel
+  end.
+Proof. exact Round2W3Total.one_step_no_panic. Qed.
+
+Theorem one_step_returns : forall f o p deg tbl tbl2,
+  length f = S deg -> (1 <= deg)%nat -> prime p -> lower_from deg 0 o ->
+  mult_tables f o deg p (p * p) = Done (tbl, tbl2) ->
+  exists o' hh, one_step f o p = Done (o', hh).
+Proof. exact Round2W3Total.one_step_returns. Qed.
+
+(** [P] the pieces: the U_p loop and I_p never panic on well-shaped tables *)
+Theorem compute_i_p_total : forall deg p pow tbl,
+  MultTableOps.cube deg tbl = true -> (1 <= deg)%nat -> p <> 0 ->
+  exists i_p, compute_i_p deg p pow tbl = Done i_p.
+Proof. exact Round2W3Step.compute_i_p_total. Qed.
+
+Theorem up_step_total : forall deg p tbl2 i_p i u_p,
+  MultTableOps.cube deg tbl2 = true -> (1 <= deg)%nat -> p <> 0 -> wf deg i_p -> wf deg u_p ->
+  (i < length i_p)%nat ->
+  exists u', up_step deg p (p * p) tbl2 i_p i u_p = Done u' /\ hnf_rows deg 0 u'.
+Proof. exact Round2W3Up.up_step_total. Qed.
+
+(** ** Non-vacuity (third wave) *)
+
+(** x^2 + 3 at p = 2 from Z[theta]: pow = 2, I_p = <(1,1), (-2,0)> = { x0 = x1 (mod 2) } (1 + theta is nilpotent
+    mod 2), U_p = I_p, new basis 1, (1 + theta)/2.  Dedekind's cubic at p = 2: U_p + 2 Z^3 = <2, 2 theta, theta + theta^2>. *)
+Definition w3_stages (f : list Z) (p : Z) :=
+  match non_monic_initial_order f, pow_ge (pdeg f) p, deg_alloc f with
+  | Done o0, Done pow, Done deg =>
+    match mult_tables f o0 deg p (p * p) with
+    | Done (tbl, tbl2) =>
+      match compute_i_p deg p pow tbl with
+      | Done i_p =>
+        match Hnf.for_loop (Hnf.range 0 (length i_p)) (up_step deg p (p * p) tbl2 i_p) i_p with
+        | Done u_p => match Hnf.hnf_new (u_p ++ p_rows deg p) with Done h => Some (pow, i_p, u_p, h) | _ => None end
+        | _ => None end
+      | _ => None end
+    | _ => None end
+  | _, _, _ => None end.
+
+Example w3_x2_3 : w3_stages [3; 0; 1] 2 = Some (2, [[1; 1]; [-2; 0]], [[2; 0]; [1; 1]], [[2; 0]; [1; 1]]).
+Proof. vm_compute. reflexivity. Qed.
+
+Example w3_dedekind : w3_stages [-8; -2; -1; 1] 2
+  = Some (4, [[0; -1; 1]; [-2; 0; 0]; [0; -2; 0]], [[2; 0; 0]; [0; 2; 0]; [0; 1; 1]], [[2; 0; 0]; [0; 2; 0]; [0; 1; 1]]).
+Proof. vm_compute. reflexivity. Qed.
+
+Example w3_x2_12 : w3_stages [12; 0; 1] 2 = Some (2, [[0; 1]; [-2; 0]], [[2; 0]; [0; 1]], [[2; 0]; [0; 1]]).
+Proof. vm_compute. reflexivity. Qed.
+
+(** a proper sub-lattice: on the maximal order of Q(sqrt -3) at p = 3, I_p = <sqrt -3, 3> but U_p = 3 O *)
+Example w3_x2_3_at_3 : w3_stages [3; 0; 1] 3 = Some (3, [[0; 1]; [-3; 0]], [[3; 0]; [0; 3]], [[3; 0]; [0; 3]]).
+Proof. vm_compute. reflexivity. Qed.
+
+(** the hypotheses of [one_step_returns] / [one_step_no_panic] on these three inputs: prime p, a stored basis
+    (by [non_monic_lower]), and the tables are computed *)
+Example w3_no_panic_hyp :
+  prime 2 /\
+  (forall f deg o0, length f = S deg -> (1 <= deg)%nat -> non_monic_initial_order f = Done o0 -> lower_from deg 0 o0) /\
+  match non_monic_initial_order [3; 0; 1], non_monic_initial_order [-8; -2; -1; 1], non_monic_initial_order [12; 0; 1] with
+  | Done a, Done b, Done c =>
+    (exists t t2, mult_tables [3; 0; 1] a 2 2 (2 * 2) = Done (t, t2)) /\
+    (exists t t2, mult_tables [-8; -2; -1; 1] b 3 2 (2 * 2) = Done (t, t2)) /\
+    (exists t t2, mult_tables [12; 0; 1] c 2 2 (2 * 2) = Done (t, t2))
+  | _, _, _ => False
+  end.
+Proof.
+  split; [exact prime_2|]. split; [exact Round2Det.non_monic_lower|].
+  vm_compute. repeat split; do 2 eexists; reflexivity.
+Qed.
+
+(** ... and a lattice that is not closed under multiplication: <1, theta/2> in Q(sqrt -3); the only panic is the
+    [is_integer] assertion of the table construction *)
+Example w3_not_a_ring :
+  let o := [[Q2Qc 1; Q2Qc 0]; [Q2Qc 0; Q2Qc (1 # 2)]] in
+  one_step [3; 0; 1] o 2 = Panic PAssert /\ mult_tables [3; 0; 1] o 2 2 (2 * 2) = Panic PAssert.
+Proof. vm_compute. auto. Qed.
+
+(** [compute_i_p_spec] read on x^2 + 3, p = 2: Phi = [[1; 0]; [-1; 0]] (1^2 = 1, theta^2 = -3 = -1 mod 2, truncating
+    remainder), so x is in I_p iff x0 - x1 is even; (1, 1) is, (1, 0) is not *)
+Example w3_i_p_membership :
+  In_rowspanZ 2 [1; 1] [[1; 1]; [-2; 0]] /\ (2 | nth 0 (lincomb 2 [1; 1] [[1; 0]; [-1; 0]]) 0) /\
+  ~ (2 | nth 0 (lincomb 2 [1; 0] [[1; 0]; [-1; 0]]) 0).
+Proof.
+  split; [exists [1; 0]; split; reflexivity|]. split; [exists 0; reflexivity|].
+  intros [q Hq]. cbn in Hq. lia.
+Qed.
+
+(** the multiplier condition of [up_step_spec] on x^2 + 3 at p = 3 (maximal order, table2 = table mod 9):
+    sqrt(-3) * sqrt(-3) = -3 is not in 3 I_p = <3 sqrt -3, 9>, so sqrt(-3) leaves U_p *)
+Example w3_multiplier :
+  mul_mod_p [0; 1] [0; 1] [[[1; 0]; [0; 1]]; [[0; 1]; [-3; 0]]] 9 = Done [-3; 0] /\
+  pI 3 [[0; 1]; [-3; 0]] = [[0; 3]; [-9; 0]] /\
+  ~ In_rowspanZ 2 [-3; 0] [[0; 3]; [-9; 0]].
+Proof.
+  split; [vm_compute; reflexivity|]. split; [vm_compute; reflexivity|].
+  intros [c [Lc E]]. destruct c as [|c0 [|c1 [|]]]; try discriminate.
+  cbn in E. injection E as E0 E1. lia.
+Qed.
+
+(** ** ring closure of the new lattice (coordinates with respect to the input order) *)
+From RNT.Refine Require Import Round2W3Ring Round2W3Order.
+From RNT.Refine Require PolyZ.
+
+
+(** [P] mult_tables_exact: the two tables of the step are the entrywise reductions (truncating [%]) mod p^2 and
+    mod p of the exact table that [Order::get_mult_table] returns for the same order *)
+Theorem mult_tables_exact : forall f o deg p p2 tbl tbl2,
+  length o = deg -> mult_tables f o deg p p2 = Done (tbl, tbl2) ->
+  exists T, get_mult_table o f = Done T /\
+            tbl2 = map (map (map (fun x => Z.rem x p2))) T /\
+            tbl = map (map (map (fun x => Z.rem (Z.rem x p2) p))) T.
+Proof. exact Round2W3Ring.mult_tables_exact. Qed.
+
+(** [C] one_step_ring_closed_partial.  [ideal_of T deg i_p]: the lattice I_p is stable under multiplication
+    by every element of the order (T its exact table).  In a returning call of [one_step] on an order with a
+    [deg x deg] basis and f with non-zero leading coefficient: T exists, is deg x deg x deg, commutative and
+    associative (C14), the step's table mod p^2 is its reduction, the lattice L generated by the rows [h] handed
+    to [new_basis] contains p Z^deg (so the new lattice (1/p) L O contains O, hence 1), and IF I_p IS AN IDEAL
+    then a * b is in p L for all a, b in L: (1/p) L O is closed under multiplication.
+    Full statement: the same without [ideal_of] (I_p is the radical of p O, an ideal; needs the additivity of
+    x -> x^(p^k) modulo p in a commutative ring, which is NOT proved) and lifted from coordinates to the stored
+    rational basis [o'] ([mult_tables f o' ..] returns). *)
+Theorem one_step_ring_closed_partial : forall f o p o' hh deg,
+  PolyZ.canonZ f = true -> length f = S deg -> (1 <= deg)%nat -> p <> 0 ->
+  length o = deg -> Forall (fun r => length r = deg) o ->
+  one_step f o p = Done (o', hh) ->
+  exists T pow tbl tbl2 i_p u_p h,
+    get_mult_table o f = Done T /\
+    MultTableOps.cube deg T = true /\ AlgNormMx.tcomm T deg /\ AlgNormMx.tassoc T deg /\
+    tbl2 = map (map (map (fun x => Z.rem x (p * p)))) T /\
+    pow_ge (pdeg f) p = Done pow /\ mult_tables f o deg p (p * p) = Done (tbl, tbl2) /\
+    compute_i_p deg p pow tbl = Done i_p /\
+    Hnf.for_loop (Hnf.range 0 (length i_p)) (up_step deg p (p * p) tbl2 i_p) i_p = Done u_p /\
+    Hnf.hnf_new (u_p ++ p_rows deg p) = Done h /\ wf deg h /\
+    (forall y, length y = deg -> In_rowspanZ deg (vscale p y) h) /\
+    (ideal_of T deg i_p ->
+     forall a b, In_rowspanZ deg a h -> In_rowspanZ deg b h ->
+                 In_rowspanZ deg (AlgNormMx.tmul T deg a b) (pI p h)).
+Proof. exact Round2W3Order.one_step_ring_closed. Qed.
+
+(** non-vacuity: x^2 + 3 at p = 2 (T = [[1,0],[0,1]],[[0,1],[-3,0]]; I_p = <(1,1), (-2,0)> is an ideal:
+    theta (1 + theta) = -3 + theta = -4 (1) + 1 (1 + theta)); L = <(2,0), (1,1)> and (1,1)(1,1) = (-2, 2) = 2 (-1,1) in 2 L *)
+Example w3_ring_hyp :
+  PolyZ.canonZ [3; 0; 1] = true /\
+  match non_monic_initial_order [3; 0; 1] with
+  | Done o0 => get_mult_table o0 [3; 0; 1] = Done [[[1; 0]; [0; 1]]; [[0; 1]; [-3; 0]]] /\
+               length o0 = 2%nat /\ Forall (fun r => length r = 2%nat) o0 /\
+               exists o' hh, one_step [3; 0; 1] o0 2 = Done (o', hh)
+  | _ => False end.
+Proof.
+  split; [reflexivity|]. vm_compute non_monic_initial_order. cbv iota.
+  split; [vm_compute; reflexivity|]. split; [reflexivity|]. split; [repeat constructor|].
+  vm_compute. do 2 eexists. reflexivity.
+Qed.
+
+Example w3_ring_ideal : ideal_of [[[1; 0]; [0; 1]]; [[0; 1]; [-3; 0]]] 2 [[1; 1]; [-2; 0]].
+Proof.
+  intros x y [c [Lc Ex]] Ly.
+  destruct c as [|c0 [|c1 [|]]]; try discriminate. destruct y as [|y0 [|y1 [|]]]; try discriminate.
+  assert (Ex' : x = [c0 - 2 * c1; c0]).
+  { subst x. cbn [lincomb vadd vscale map map2 vzero repeat]. f_equal; [ring | f_equal; ring]. }
+  rewrite Ex'. clear Ex Ex' x.
+  rewrite (Round2W3Mul.tmul_by_mt (n := 2%nat) (r := [y0 * (c0 - 2 * c1) - 3 * (y1 * c0); y0 * c0 + y1 * (c0 - 2 * c1)])).
+  - exists [y0 * c0 + y1 * (c0 - 2 * c1); c1 * y0 + 2 * (y1 * c0) - c1 * y1]. split; [reflexivity|].
+    cbn [lincomb vadd vscale map map2 vzero repeat]. f_equal; [ring | f_equal; ring].
+  - reflexivity.
+  - reflexivity.
+  - reflexivity.
+  - unfold MultTable.mt_mul. cbn [debug_assert bind length Hnf.range Nat.sub seq Hnf.for_loop nth_chk nth_error MultTable.addmul_prefix repeat].
+    f_equal. f_equal; [ring | f_equal; ring].
+Qed.
+
+(** ** the radical: I_p = { x : x^pow = 0 (mod p) } is an ideal; ring closure without the ideal hypothesis *)
+From RNT.Refine Require Import Round2W3Radical.
+From RNT.Refine Require Round2W3Frob Round2W3Unit.
+
+(** [P] pow_additive (the "freshman's dream" for the model's [pow_mod_p]).  T: a deg x deg x deg table whose
+    product [tmul] is commutative, associative and has a unit [one]; p prime; [tbl] = T reduced mod p^2 then mod p
+    with truncating remainders (exactly the table [one_step] builds, [mult_tables_exact]); q = p^k.  Then
+    (1) x^q = sum_i x_i e_i^q (mod p) for every integer vector x (Phi_i = e_i^q computed by [pow_mod_p]), and
+    (2) if x^q = 0 (mod p) then (y x)^q = 0 (mod p) for every y.
+    Proof: the regular representation reduced mod p maps into commuting matrices over F_p (MathComp:
+    [Frobenius_autD_comm]), is multiplicative on [mul_mod_p], and is faithful mod p because of the unit. *)
+Theorem pow_additive : forall (deg : nat) (p : Z) (T : MultTable.table) (one : list Z) (k : nat),
+  (1 <= deg)%nat -> prime p ->
+  MultTableOps.cube deg T = true -> AlgNormMx.tcomm T deg -> AlgNormMx.tassoc T deg ->
+  length one = deg -> (forall x, length x = deg -> AlgNormMx.tmul T deg one x = x) ->
+  let tbl := map (map (map (fun x => Z.rem (Z.rem x (p * p)) p))) T in
+  let q := p ^ Z.of_nat k in
+  (forall x (Phi : list (list Z)) r, length x = deg -> shape deg deg Phi ->
+     (forall i, (i < deg)%nat -> pow_mod_p (unit_vec deg i) q tbl p = Done (nth i Phi [])) ->
+     pow_mod_p x q tbl p = Done r ->
+     forall j, (p | nth j r 0 - nth j (lincomb deg x Phi) 0)) /\
+  (forall x y rx r, length x = deg -> length y = deg ->
+     pow_mod_p x q tbl p = Done rx -> (forall j, (p | nth j rx 0)) ->
+     pow_mod_p (AlgNormMx.tmul T deg y x) q tbl p = Done r -> forall j, (p | nth j r 0)).
+Proof. exact Round2W3Frob.frobenius_pack. Qed.
+
+(** [P] order_has_unit: the table of an order that contains 1 has a unit (the integer coordinates of 1) *)
+Theorem order_has_unit : forall f n (o : qmat) T,
+  PolyZ.canonZ f = true -> length f = S n -> (1 <= n)%nat -> length o = n -> Forall (fun r => length r = n) o ->
+  get_mult_table o f = Done T -> in_spanQ n (one_vec n) o -> has_unit T n.
+Proof. exact Round2W3Radical.order_has_unit_list. Qed.
+
+(** [P] reachable_step_order.  For every Round 2 step that the driver can take -- on an order [o] reachable from the
+    starting order Z[theta] cap Z[1/theta], at a prime p, f with non-zero leading coefficient -- and that returns:
+    - [pow_linear]: the power map is additive mod p, so I_p = { x : x^pow = 0 (mod p) } with the model's own
+      [pow_mod_p] (the p-radical of the order, in coordinates);
+    - [ideal_of T deg i_p]: I_p is an ideal of the order (T = its exact table, commutative and associative);
+    - ring closure: a * b is in p L for all a, b in the lattice L = U_p + p Z^deg generated by the rows [h] handed to
+      [new_basis], and p Z^deg is inside L: the new lattice (1/p) L O contains O and is closed under multiplication.
+    NOT included: the translation from coordinates to the stored rational basis [o'] (that [get_mult_table o' f]
+    returns), which is what would make "is an order" an invariant of the driver's loop. *)
+Theorem reachable_step_order : forall f o0 o p o' hh deg,
+  PolyZ.canonZ f = true -> length f = S deg -> (1 <= deg)%nat -> prime p ->
+  non_monic_initial_order f = Done o0 -> reachable f o0 o ->
+  one_step f o p = Done (o', hh) ->
+  exists T pow tbl tbl2 i_p u_p h Phi,
+    get_mult_table o f = Done T /\
+    pow_ge (pdeg f) p = Done pow /\ mult_tables f o deg p (p * p) = Done (tbl, tbl2) /\
+    compute_i_p deg p pow tbl = Done i_p /\
+    Hnf.for_loop (Hnf.range 0 (length i_p)) (up_step deg p (p * p) tbl2 i_p) i_p = Done u_p /\
+    Hnf.hnf_new (u_p ++ p_rows deg p) = Done h /\ wf deg h /\
+    shape deg deg Phi /\
+    (forall i, (i < deg)%nat -> pow_mod_p (unit_vec deg i) pow tbl p = Done (row Phi i)) /\
+    (forall y, length y = deg -> In_rowspanZ deg (vscale p y) h) /\
+    pow_linear deg p pow tbl Phi /\
+    (forall x, In_rowspanZ deg x i_p <->
+               length x = deg /\ exists r, pow_mod_p x pow tbl p = Done r /\
+                                           forall k, (k < deg)%nat -> (p | nth k r 0)) /\
+    ideal_of T deg i_p /\
+    forall a b, In_rowspanZ deg a h -> In_rowspanZ deg b h ->
+                In_rowspanZ deg (AlgNormMx.tmul T deg a b) (pI p h).
+Proof. exact Round2W3Radical.reachable_step_order. Qed.
+
+(** [P] the same for any input order with a [deg x deg] basis that contains 1 *)
+Theorem one_step_order_one : forall f o p o' hh deg,
+  PolyZ.canonZ f = true -> length f = S deg -> (1 <= deg)%nat -> prime p ->
+  length o = deg -> Forall (fun r => length r = deg) o ->
+  in_spanQ deg (one_vec deg) o ->
+  one_step f o p = Done (o', hh) ->
+  exists T pow tbl tbl2 i_p u_p h Phi,
+    get_mult_table o f = Done T /\
+    pow_ge (pdeg f) p = Done pow /\ mult_tables f o deg p (p * p) = Done (tbl, tbl2) /\
+    compute_i_p deg p pow tbl = Done i_p /\
+    Hnf.for_loop (Hnf.range 0 (length i_p)) (up_step deg p (p * p) tbl2 i_p) i_p = Done u_p /\
+    Hnf.hnf_new (u_p ++ p_rows deg p) = Done h /\ wf deg h /\
+    shape deg deg Phi /\
+    (forall i, (i < deg)%nat -> pow_mod_p (unit_vec deg i) pow tbl p = Done (row Phi i)) /\
+    (forall y, length y = deg -> In_rowspanZ deg (vscale p y) h) /\
+    pow_linear deg p pow tbl Phi /\
+    (forall x, In_rowspanZ deg x i_p <->
+               length x = deg /\ exists r, pow_mod_p x pow tbl p = Done r /\
+                                           forall k, (k < deg)%nat -> (p | nth k r 0)) /\
+    ideal_of T deg i_p /\
+    forall a b, In_rowspanZ deg a h -> In_rowspanZ deg b h ->
+                In_rowspanZ deg (AlgNormMx.tmul T deg a b) (pI p h).
+Proof. exact Round2W3Radical.one_step_order_one. Qed.
+
+(** non-vacuity: the hypotheses of [reachable_step_order] at the first and the second step of x^2 + 12, p = 2
+    (a step on an order that is not the starting order), and on Dedekind's cubic *)
+Example w3_reachable_hyp :
+  PolyZ.canonZ [12; 0; 1] = true /\ PolyZ.canonZ [-8; -2; -1; 1] = true /\ prime 2 /\
+  match non_monic_initial_order [12; 0; 1] with
+  | Done o0 =>
+    match one_step [12; 0; 1] o0 2 with
+    | Done (o1, _) => reachable [12; 0; 1] o0 o1 /\ exists o2 h2, one_step [12; 0; 1] o1 2 = Done (o2, h2)
+    | _ => False end
+  | _ => False end /\
+  match non_monic_initial_order [-8; -2; -1; 1] with
+  | Done o0 => exists o1 h1, one_step [-8; -2; -1; 1] o0 2 = Done (o1, h1)
+  | _ => False end.
+Proof.
+  split; [reflexivity|]. split; [reflexivity|]. split; [exact prime_2|]. split.
+  - destruct (non_monic_initial_order [12; 0; 1]) as [o0| |] eqn:E0; [|vm_compute in E0; discriminate..].
+    destruct (one_step [12; 0; 1] o0 2) as [[o1 h1]| |] eqn:E1.
+    + split; [eapply reach_step; [apply reach_refl|exact E1]|].
+      assert (X : match non_monic_initial_order [12; 0; 1] with
+                  | Done o0 => match one_step [12; 0; 1] o0 2 with
+                               | Done (o1, _) => match one_step [12; 0; 1] o1 2 with Done _ => True | _ => False end
+                               | _ => False end
+                  | _ => False end) by (vm_compute; exact I).
+      rewrite E0, E1 in X. destruct (one_step [12; 0; 1] o1 2) as [[o2 h2]| |]; [eauto|destruct X..].
+    + assert (X : match non_monic_initial_order [12; 0; 1] with
+                  | Done o0 => match one_step [12; 0; 1] o0 2 with Done _ => True | _ => False end
+                  | _ => False end) by (vm_compute; exact I).
+      rewrite E0, E1 in X. destruct X.
+    + assert (X : match non_monic_initial_order [12; 0; 1] with
+                  | Done o0 => match one_step [12; 0; 1] o0 2 with Done _ => True | _ => False end
+                  | _ => False end) by (vm_compute; exact I).
+      rewrite E0, E1 in X. destruct X.
+  - vm_compute. do 2 eexists. reflexivity.
+Qed.
+
+(** the radical of 2 O in Z[sqrt -3]: x = (1, 1) has x^2 = -2 + 2 theta = 0 (mod 2), and e_1^2 = theta^2 = -3 = (-1, 0) mod 2 *)
+Example w3_radical_example :
+  let tbl := [[[1; 0]; [0; 1]]; [[0; 1]; [-1; 0]]] in
+  pow_mod_p [1; 1] 2 tbl 2 = Done [0; 0] /\ pow_mod_p [0; 1] 2 tbl 2 = Done [-1; 0] /\ pow_mod_p [1; 0] 2 tbl 2 = Done [1; 0].
+Proof. vm_compute. auto. Qed.
+
+(** ** the Round 2 step maps orders to orders; the driver *)
+From RNT.Refine Require Import Round2W3Driver.
+
+(** [is_order f deg o]: [o] is a stored basis (lower triangular, positive diagonal: what [Order::from_basis]
+    returns) of a lattice that contains 1 and is closed under multiplication ([Order::get_mult_table] returns on it:
+    every product of two basis elements has integer coordinates). *)
+
+(** [P] one_step_is_order: from coordinates to the stored rational basis.  If the input of a returning Round 2 step
+    at a prime p is an order (f with non-zero leading coefficient), so is its result: it contains the input (hence
+    1), is a stored basis, and [get_mult_table] returns on it.  (Ring closure in coordinates,
+    [reachable_step_order], carried to the basis [o' = hnf_reduce((h/p) O)] through the product of Q[x]/(f):
+    C14 [table_mul_agrees] for the input order, [solve_linear_system] on the non-singular new basis.) *)
+Theorem one_step_is_order : forall f o p o' hh deg,
+  PolyZ.canonZ f = true -> length f = S deg -> (1 <= deg)%nat -> prime p ->
+  lower_from deg 0 o -> in_spanQ deg (one_vec deg) o ->
+  one_step f o p = Done (o', hh) ->
+  lower_from deg 0 o' /\ in_spanQ deg (one_vec deg) o' /\ exists T', get_mult_table o' f = Done T'.
+Proof. exact Round2W3Driver.one_step_is_order. Qed.
+
+(** [P] order_step_returns: on an order and at a prime, the step returns (no panic, enough fuel) *)
+Theorem order_step_returns : forall f deg o p,
+  length f = S deg -> (1 <= deg)%nat -> prime p -> is_order f deg o ->
+  exists o' hh, one_step f o p = Done (o', hh).
+Proof. exact Round2W3Driver.order_step_returns. Qed.
+
+Theorem order_step_order : forall f deg o p o' hh,
+  PolyZ.canonZ f = true -> length f = S deg -> (1 <= deg)%nat -> prime p -> is_order f deg o ->
+  one_step f o p = Done (o', hh) -> is_order f deg o'.
+Proof. exact Round2W3Driver.order_step_order. Qed.
+
+(** [P] prime_loop_order: the [while] loop at a prime, started on an order, returns an order or panics with the
+    u64 overflow of [e -= 2 * howmany] (dev profile; never in the release profile) *)
+Theorem prime_loop_order : forall f deg p m,
+  PolyZ.canonZ f = true -> length f = S deg -> (1 <= deg)%nat -> prime p ->
+  forall fuel o e, is_order f deg o ->
+  match prime_loop fuel m f o p e with
+  | Done o' => is_order f deg o'
+  | Panic t => t = POverflow
+  | OutOfFuel => True
+  end.
+Proof. exact Round2W3Driver.prime_loop_order. Qed.
+
+(** [C] find_integral_basis_order_partial: PROVIDED the starting order Z[theta] cap Z[1/theta] is closed under
+    multiplication (flag computed by the model: [Order::get_mult_table] returns on it), the driver returns an
+    order, and each of its panics is a panic of [non_monic_initial_order], of [o.discriminant(theta)], of the trial
+    factorisation (discriminant 0), or the u64 overflow of the exponent bookkeeping: no assertion, index or unwrap
+    panic of [one_step] is reachable (the primes come from [trial_factorize], C11 [trial_factorize_spec]).
+    Full statement: the same without the flag (the starting order of every non-constant f is a ring: not proved;
+    for monic f it is Z[theta]). *)
+Theorem find_integral_basis_order_partial : forall m f deg,
+  PolyZ.canonZ f = true -> length f = S deg -> (1 <= deg)%nat ->
+  (forall o0, non_monic_initial_order f = Done o0 -> exists T0, get_mult_table o0 f = Done T0) ->
+  match find_integral_basis m f with
+  | Done om => is_order f deg om
+  | Panic t =>
+      non_monic_initial_order f = Panic t \/
+      (exists o0, non_monic_initial_order f = Done o0 /\
+         (order_disc m o0 f = Panic t \/
+          exists disc, order_disc m o0 f = Done disc /\
+            (Elementary.trial_factorize (Z.abs disc) = Panic t \/ t = POverflow)))
+  | OutOfFuel => True
+  end.
+Proof. exact Round2W3Driver.find_integral_basis_order. Qed.
+
+(** non-vacuity: the flag on x^2 + 3, Dedekind's cubic, x^2 + 12 and the non-monic 2x^3 + x + 1 *)
+Example w3_flag :
+  (forall f, In f [[3; 0; 1]; [-8; -2; -1; 1]; [12; 0; 1]; [1; 1; 0; 2]] ->
+     PolyZ.canonZ f = true /\
+     match non_monic_initial_order f with
+     | Done o0 => match get_mult_table o0 f with Done _ => True | _ => False end
+     | _ => False end).
+Proof.
+  intros f [<-|[<-|[<-|[<-|[]]]]]; (split; [reflexivity|vm_compute; exact I]).
+Qed.
+
+(** the maximal order of Q(sqrt -3) is an order in this sense: its table is returned *)
+Example w3_result_table :
+  match find_integral_basis Checked [3; 0; 1] with
+  | Done om => get_mult_table om [3; 0; 1] = Done [[[1; 0]; [0; 1]]; [[0; 1]; [-1; 1]]]
+  | _ => False end.
+Proof. vm_compute. reflexivity. Qed.
+
+(** [P] one_step_only_assert: on a stored basis and at a prime (f with non-zero leading coefficient), [one_step] never
+    runs out of fuel and its only reachable panic is [assert!(inv[k].is_integer())] of the table construction
+    (round2.rs:40): the input lattice is not closed under multiplication *)
+Theorem one_step_only_assert : forall f o p deg,
+  PolyZ.canonZ f = true -> length f = S deg -> (1 <= deg)%nat -> prime p -> lower_from deg 0 o ->
+  match one_step f o p with
+  | Done _ => True
+  | Panic t => t = PAssert /\ mult_tables f o deg p (p * p) = Panic PAssert
+  | OutOfFuel => False
+  end.
+Proof. exact Round2W3Driver.one_step_only_assert. Qed.
+
+(** ** monic f: no flag *)
+From RNT.Refine Require Import Round2W3Start.
+
+(** [P] monic_start_table: for monic f (leading coefficient 1, degree >= 1) the starting order has the lattice of the
+    power basis 1, theta, .., theta^(deg-1) and [Order::get_mult_table] returns on it (remainders of X^k by a monic
+    integer polynomial are integer polynomials) *)
+Theorem monic_start_table : forall f deg o0,
+  PolyZ.canonZ f = true -> length f = S deg -> (1 <= deg)%nat -> nth deg f 0 = 1 ->
+  non_monic_initial_order f = Done o0 -> exists T0, get_mult_table o0 f = Done T0.
+Proof. exact Round2W3Start.monic_start_table. Qed.
+
+(** [P] find_integral_basis_order_monic: for every monic f of degree >= 1, in both build profiles: if the driver
+    returns, the result is an order (a stored basis of a lattice that contains 1 and is closed under multiplication),
+    and every panic of the driver is a panic of [non_monic_initial_order], of [o.discriminant(theta)], of the trial
+    factorisation (discriminant 0: f not squarefree), or the u64 overflow of [e -= 2 * howmany]; in particular no
+    assertion, index, unwrap or division panic inside [one_step] is reachable, and neither is [OutOfFuel] inside it
+    ([prime_loop_fuel_ok]). *)
+Theorem find_integral_basis_order_monic : forall m f deg,
+  PolyZ.canonZ f = true -> length f = S deg -> (1 <= deg)%nat -> nth deg f 0 = 1 ->
+  match find_integral_basis m f with
+  | Done om => is_order f deg om
+  | Panic t =>
+      non_monic_initial_order f = Panic t \/
+      (exists o0, non_monic_initial_order f = Done o0 /\
+         (order_disc m o0 f = Panic t \/
+          exists disc, order_disc m o0 f = Done disc /\
+            (Elementary.trial_factorize (Z.abs disc) = Panic t \/ t = POverflow)))
+  | OutOfFuel => True
+  end.
+Proof. exact Round2W3Start.find_integral_basis_order_monic. Qed.
+
+(** non-vacuity: the hypotheses on Dedekind's cubic; the driver returns on it *)
+Example w3_monic_hyp :
+  PolyZ.canonZ [-8; -2; -1; 1] = true /\ length [-8; -2; -1; 1] = 4%nat /\ nth 3 [-8; -2; -1; 1] 0 = 1 /\
+  exists om, find_integral_basis Checked [-8; -2; -1; 1] = Done om.
+Proof. split; [reflexivity|]. split; [reflexivity|]. split; [reflexivity|]. eexists. vm_compute. reflexivity. Qed.
